@@ -113,16 +113,19 @@ def _reg_block(N, fixed=(), suffix=(), tier="quick"):
                      "records line = starting line + number of line-break tokens before it" % (
                          N, (" after `%s`" % " ".join(fixed)) if fixed else "", (" before `%s`" % " ".join(suffix)) if suffix else ""))
     def _ob(O, N=N, fixed=fixed, suffix=suffix):
-        R = rep()
-        m, eng, ts, paths = C09.explore_block(O, N, None, None, 1, fixed=fixed, suffix=suffix,
-                                              keep_outcomes=lambda oc: oc in ("return", "cut"))
-        from ..sym import Node as _N
-        L0 = z3.BitVec("arg1.*.%d" % m.fidx("Parser", "line"), 64)
-        n = check_lines(O, R, m, eng, ts, paths, L0)
-        if n == 0 and N + len(fixed) + len(suffix) >= 1:
-            O.inconclusive("vacuous: no accepted row")
-        O.note("%d paths, %d row lines checked" % (eng.npaths, n))
+        block_lines(O, N, fixed, suffix)
     return _ob
+
+
+def block_lines(O, N, fixed=(), suffix=(), R=None):
+    R = R or rep()
+    m, eng, ts, paths = C09.explore_block(O, N, None, None, 1, fixed=fixed, suffix=suffix,
+                                          keep_outcomes=lambda oc: oc in ("return", "cut"))
+    L0 = z3.BitVec("arg1.*.%d" % m.fidx("Parser", "line"), 64)
+    n = check_lines(O, R, m, eng, ts, paths, L0)
+    if n == 0 and N + len(fixed) + len(suffix) >= 1:
+        O.inconclusive("vacuous: no accepted row")
+    O.note("%d paths, %d row lines checked" % (eng.npaths, n))
 
 
 for _n in (1, 2):
